@@ -552,6 +552,13 @@ def parseURI (uri : Str) : ParseOut :=
             path := unquote sp.path
             args := dictOf (parseQsl sp.query) }
 
+/-- the `filename` attribute of `SQLiteConnection(filename)`; `none` = the constructor does something the model
+    does not follow (`Extracted.sqliteInitStore ≠ asGiven`) -/
+def sqliteNew (filename : Str) : Option Str :=
+  match Extracted.sqliteInitStore with
+  | .asGiven => some filename
+  | .other => none
+
 /-! ## `connectionForURI(uri, **args)`: extra parameters -/
 
 /-- `quote_plus(s)` (`safe=''`) of a valid string: blanks become `+`, a literal `+` is escaped -/
